@@ -187,6 +187,7 @@ type model struct {
 	hs       raftpb.HardState
 	snapIdx  uint64
 	snaps    []*snapInfo
+	cuts     []int  // record counts at which a completed segment cut put a boundary
 	doneSnap uint64 // index of the newest snapshot whose save (file + record) completed
 	epoch    uint64 // distinguishes payloads written by different incarnations
 }
@@ -334,6 +335,10 @@ func hsEq(a, b raftpb.HardState) bool {
 
 // matchPrefix returns the largest k <= wlen such that folding W[:k] for a
 // reader positioned at snapshot index start yields exactly rec; -1 if none.
+//
+// The fold is the Raft log the saves describe: an entry with index i replaces
+// everything at and after i (whether or not i is past the snapshot), the last
+// state record wins; the reader gets the entries past the snapshot index.
 func matchPrefix(W []lrec, wlen int, start uint64, meta []byte, rec *recovered) int {
 	if !bytes.Equal(meta, rec.meta) {
 		// a reader that stopped before the metadata record (second record of
@@ -345,8 +350,12 @@ func matchPrefix(W []lrec, wlen int, start uint64, meta []byte, rec *recovered) 
 	}
 	best := -1
 	var hs raftpb.HardState
-	var ents []int // positions in W
+	var log []int // log[i-1] = position in W of the entry with index i
 	check := func(k int) {
+		var ents []int
+		if start < uint64(len(log)) {
+			ents = log[start:]
+		}
 		if !hsEq(hs, rec.hs) || len(ents) != len(rec.ents) {
 			return
 		}
@@ -363,19 +372,84 @@ func matchPrefix(W []lrec, wlen int, start uint64, meta []byte, rec *recovered) 
 		r := &W[k-1]
 		switch r.kind {
 		case 'e':
-			if r.ent.Index > start {
-				up := r.ent.Index - start - 1
-				if up > uint64(len(ents)) {
-					return best // a reader fails from here on (slice out of range)
-				}
-				ents = append(ents[:up], k-1)
+			i := r.ent.Index
+			if i == 0 || i > uint64(len(log))+1 {
+				return best // a gap: not produced by the workload
 			}
+			log = append(log[:i-1], k-1)
 		case 's':
 			hs = r.hs
 		}
 		check(k)
 	}
 	return best
+}
+
+// matchLiteral is ReadAll's literal behaviour: records are read from a
+// segment boundary b (a reader positioned at a snapshot skips older segments),
+// entries at or below the snapshot index are skipped without truncating what
+// was collected, so an entry past the snapshot that a later save overwrote from
+// an index at or below the snapshot stays in the result.  Returns (b,k) or -1.
+func matchLiteral(W []lrec, wlen int, cuts []int, start uint64, rec *recovered) (int, int) {
+	for ci := len(cuts) - 1; ci >= -1; ci-- {
+		b := 0
+		if ci >= 0 {
+			b = cuts[ci]
+		}
+		if b > wlen {
+			continue
+		}
+		var hs raftpb.HardState
+		var ents []int
+		ok := true
+		bestK := -1
+		for k := b; k <= wlen && ok; k++ {
+			if k > b {
+				r := &W[k-1]
+				switch r.kind {
+				case 'e':
+					if r.ent.Index > start {
+						up := r.ent.Index - start - 1
+						if up > uint64(len(ents)) {
+							ok = false
+							continue
+						}
+						ents = append(ents[:up], k-1)
+					}
+				case 's':
+					hs = r.hs
+				}
+			}
+			// the head of a segment repeats the hard state, so a reader that
+			// starts at b knows the state as of b
+			if k == b {
+				for j := b - 1; j >= 0; j-- {
+					if W[j].kind == 's' {
+						hs = W[j].hs
+						break
+					}
+				}
+			}
+			if !hsEq(hs, rec.hs) || len(ents) != len(rec.ents) {
+				continue
+			}
+			same := true
+			for i, p := range ents {
+				x, y := &W[p].ent, &rec.ents[i]
+				if x.Index != y.Index || x.Term != y.Term || !bytes.Equal(x.Data, y.Data) {
+					same = false
+					break
+				}
+			}
+			if same {
+				bestK = k
+			}
+		}
+		if bestK >= 0 {
+			return b, bestK
+		}
+	}
+	return -1, -1
 }
 
 func describe(rec *recovered) string {
@@ -388,19 +462,20 @@ func describe(rec *recovered) string {
 
 func describeFold(W []lrec, k int, start uint64) string {
 	var rec recovered
+	var log []raftpb.Entry
 	for i := 0; i < k; i++ {
 		r := &W[i]
 		switch r.kind {
 		case 'e':
-			if r.ent.Index > start {
-				up := r.ent.Index - start - 1
-				if up <= uint64(len(rec.ents)) {
-					rec.ents = append(rec.ents[:up], r.ent)
-				}
+			if r.ent.Index >= 1 && r.ent.Index <= uint64(len(log))+1 {
+				log = append(log[:r.ent.Index-1], r.ent)
 			}
 		case 's':
 			rec.hs = r.hs
 		}
+	}
+	if start < uint64(len(log)) {
+		rec.ents = log[start:]
 	}
 	return describe(&rec)
 }
